@@ -100,6 +100,9 @@ func GetExtendedSpatialIdsOnLine(
 		return spatialIDs, e
 	}
 
+	// 始点・終点の拡張空間IDを保持(中点探索の隣接判定に使用する)
+	startSpatialID, endSpatialID := spatialIDs[0], spatialIDs[1]
+
 	// 拡張空間IDをユニーク化
 	spatialIDs = common.Unique(spatialIDs)
 
@@ -128,8 +131,8 @@ func GetExtendedSpatialIdsOnLine(
 	}
 
 	// 【経度緯度空間】始点・終点の中点を拡張空間IDを再帰的に取得する。
-	middleSpatialIds(
-		startSpatial, endSpatial, hZoom, vZoom,
+	middleSpatialIdsBetween(
+		startSpatial, endSpatial, startSpatialID, endSpatialID, hZoom, vZoom,
 		lonMinima, latMinima, altMinima, func(spatialID string) {
 			spatialIDs = append(spatialIDs, spatialID)
 		})
@@ -160,21 +163,48 @@ func middleSpatialIds(
 	lonMinima, latMinima, altMinima float64,
 	operate func(string),
 ) {
+	// Pointオブジェクトへ型変換
+	startPoint, _ := object.NewPoint(start.X, start.Y, start.Z)
+	endPoint, _ := object.NewPoint(end.X, end.Y, end.Z)
+
+	// 始点・終点の拡張空間ID取得
+	endSpatialIDs, _ := GetExtendedSpatialIdsOnPoints(
+		[]*object.Point{startPoint, endPoint},
+		hZoom,
+		vZoom,
+	)
+
+	middleSpatialIdsBetween(
+		start, end, endSpatialIDs[0], endSpatialIDs[1], hZoom, vZoom,
+		lonMinima, latMinima, altMinima, operate)
+}
+
+// middleSpatialIdsBetween 始点終点の中点の拡張空間IDを再帰的に取得する。
+//
+// 始点・終点の拡張空間IDは呼び出し元で取得済みのものを引き継ぐ。
+// (座標から再取得すると緯度の切り捨てが二重に適用され、ボクセル境界上の端点が隣のボクセルと判定されて
+// 中点探索が打ち切られ、線分が通過するボクセルが欠落するため)
+func middleSpatialIdsBetween(
+	start, end spatial.Point3,
+	startSpatialID, endSpatialID string,
+	hZoom, vZoom int64,
+	lonMinima, latMinima, altMinima float64,
+	operate func(string),
+) {
 
 	// 中点
 	middle := spatial.NewLineFromPoints(start, end).ToPoint(0.5)
 
 	// Pointオブジェクトへ型変換
-	startPoint, _ := object.NewPoint(start.X, start.Y, start.Z)
-	endPoint, _ := object.NewPoint(end.X, end.Y, end.Z)
 	middlePoint, _ := object.NewPoint(middle.X, middle.Y, middle.Z)
 
 	// 拡張空間ID取得
-	lineSpatialIDs, _ := GetExtendedSpatialIdsOnPoints(
-		[]*object.Point{startPoint, endPoint, middlePoint},
+	middleSpatialIDs, _ := GetExtendedSpatialIdsOnPoints(
+		[]*object.Point{middlePoint},
 		hZoom,
 		vZoom,
 	)
+	lineSpatialIDs := []string{startSpatialID, endSpatialID, middleSpatialIDs[0]}
 
 	// 中点の拡張空間ID
 	middleSpatialID := lineSpatialIDs[2]
@@ -209,26 +239,26 @@ func middleSpatialIds(
 		// 中点が始点の周囲にある場合
 	} else if common.Include(start6SpatialIDs, middleSpatialID) {
 		// 中点と終点で再帰的に中間拡張空間ID取得
-		middleSpatialIds(
-			spatial.Point3(middle), end, hZoom, vZoom,
+		middleSpatialIdsBetween(
+			spatial.Point3(middle), end, middleSpatialID, endSpatialID, hZoom, vZoom,
 			lonMinima, latMinima, altMinima, operate)
 
 		// 中点が終点の周囲にある場合
 	} else if common.Include(end6SpatialIDs, middleSpatialID) {
 		// 始点と中点で再帰的に中間拡張空間ID取得
-		middleSpatialIds(
-			start, spatial.Point3(middle), hZoom, vZoom,
+		middleSpatialIdsBetween(
+			start, spatial.Point3(middle), startSpatialID, middleSpatialID, hZoom, vZoom,
 			lonMinima, latMinima, altMinima, operate)
 
 		// 中点が始点・終点の周囲にない場合
 	} else {
 		// 始点と中点で再帰的に中間拡張空間ID取得
-		middleSpatialIds(
-			start, spatial.Point3(middle), hZoom, vZoom,
+		middleSpatialIdsBetween(
+			start, spatial.Point3(middle), startSpatialID, middleSpatialID, hZoom, vZoom,
 			lonMinima, latMinima, altMinima, operate)
 		// 中点と終点で再帰的に中間拡張空間ID取得
-		middleSpatialIds(
-			spatial.Point3(middle), end, hZoom, vZoom,
+		middleSpatialIdsBetween(
+			spatial.Point3(middle), end, middleSpatialID, endSpatialID, hZoom, vZoom,
 			lonMinima, latMinima, altMinima, operate)
 	}
 }
